@@ -101,7 +101,7 @@ func SpreadNames(input []ScenarioConfig) (map[string]int, int) {
 	weights := make([]int64, len(input))
 	for i := range input {
 		scenarioRegistry[input[i].Name] = input[i]
-		if input[i].Weight == 0 {
+		if input[i].Weight <= 0 {
 			input[i].Weight = 1
 		}
 		weights[i] = input[i].Weight
